@@ -287,6 +287,8 @@ func H_lifecycle() {
 	verifQuiesce()
 	verifAssert(verifGoroutines() == 0, "the background goroutine is gone after Close")
 	verifAssert(verifK.initCalls == 1 && verifK.newFiles == 1, "one descriptor acquired")
+	verifAssert(verifK.initFlags&unix.IN_CLOEXEC != 0, "the notification descriptor is close-on-exec: otherwise child processes inherit it and the kernel instance outlives Close")
+	verifAssert(verifK.initFlags&unix.IN_NONBLOCK != 0, "the notification descriptor is non-blocking: otherwise Close cannot interrupt the reader's pending read")
 	verifCheckClosed(w)
 	for _, p := range [...]string{"", "/t", "rel", "/t/..."} {
 		e := wt.Add(p)
@@ -496,4 +498,25 @@ func H_conc_lists() {
 	verifAssert(ea == nil, "Add succeeds")
 	verifAssert((n1 == W || n1 == W+1) && (n2 == W || n2 == W+1), "each WatchList shows the state before or after the concurrent Add")
 	verifReach("conc-lists")
+}
+
+// C13: a failing read (consumed from Errors) must not make a later Close skip
+// releasing the descriptor.
+func H_lifecycle_readerr() {
+	verifKReset()
+	wt, err := NewWatcher()
+	verifAssert(err == nil, "NewWatcher")
+	w := wt.b.(*inotify)
+	verifK.script[0] = verifRead{err: unix.EIO}
+	verifK.nScript = 1
+	verifK.blockAfter = true
+	_ = wt.Add("/t")
+	e := <-wt.Errors
+	verifAssert(e != nil && errors.Is(e, unix.EIO), "the read error is reported")
+	verifQuiesce()
+	verifAssert(wt.Close() == nil, "Close returns nil")
+	verifQuiesce()
+	verifAssert(verifGoroutines() == 0, "the reader is gone after Close")
+	verifCheckClosed(w)
+	verifReach("lifecycle-readerr")
 }
